@@ -21,7 +21,8 @@ Comparisons of doubles are exact. `log2` (libm) and the final `median` of the lo
 returns the eigenvalue estimates, the harness applies the same `numpy.log2` / `numpy.median` to them and then demands
 bit-for-bit equality with what the code returned (`capf` operation). The start vectors and the tolerance
 `10 ** tolerance_level` are parameters (doubles, as exact fractions).
-`none` = out of fuel or a non-finite intermediate result (cannot happen for entries in `[0, 1]`).
+`none` = out of fuel or a non-finite intermediate result — for start vectors in `[0, 1]` neither happens
+(`C17F_total`); the one quotient that can leave the binary64 range, the relative error, is handled like NumPy's `inf`.
 -/
 namespace Dsw
 
@@ -90,18 +91,24 @@ def capLoopF (a : Acc) (tol : Dbl) (maxIter : Nat) :
       match lastEv with
       | none => capLoopF a tol maxIter f r.1 (some r.2) queue record
       | some le =>
-        let rel : Option Dbl :=
-          if Dbl.lt Dbl.zero le then ((Dbl.sub r.2 le).map Dbl.abs).bind fun d => Dbl.div d le else some Dbl.zero
-        match rel, maxDiffF a.size r.1 last with
-        | some rel, some md =>
+        -- `relative_error < tol`; the quotient `abs(ev - le) / le` is the one operation of the loop that can exceed the
+        -- binary64 range (a tiny positive `le`): NumPy then yields `inf` (and goes on), and `inf < tol` is false
+        let relLt : Bool :=
+          if Dbl.lt Dbl.zero le then
+            match ((Dbl.sub r.2 le).map Dbl.abs).bind fun d => Dbl.div d le with
+            | some rel => Dbl.lt rel tol
+            | none => false
+          else Dbl.lt Dbl.zero tol
+        match maxDiffF a.size r.1 last with
+        | some md =>
           let queue := queue ++ [r.2]
-          let res1 := if Dbl.lt rel tol ∧ Dbl.lt md tol then [clampEvF tol r.2] else []
+          let res1 := if relLt ∧ Dbl.lt md tol then [clampEvF tol r.2] else []
           match (if queue.length > maxIter then (medianF queue).map fun m => [clampEvF tol m] else some []) with
           | none => none
           | some res2 =>
             if res1 ++ res2 ≠ [] then some ⟨res1 ++ res2, record⟩
             else capLoopF a tol maxIter f r.1 (some r.2) queue record
-        | _, _ => none
+        | none => none
 
 /-- `last_eigenvector[ignore_positions] = 0.0`. -/
 def zeroDeadF (a : Acc) (x : VecF) : VecF :=
